@@ -1013,6 +1013,20 @@ def rule_simdpad(rows, prop):
                 findings.append(finding("R-SIMDPAD", prop, r, "%s = %s" % (f["a"], f["b"]), "partial-pack copy reads %s[... + %s] without the bound %s < n_simd_pack - n_pad: a lane past the data (or past the buffer) is read; guards: %s" % (m.group(1), iv, iv, sorted(_cmp_guards(f))[:3]), f.get("line")))
             elif len(samples) < 2:
                 samples.append("R-SIMDPAD %s under %s < n_simd_pack - n_pad" % (f["b"][:60], iv))
+    # operand side agreement: data of one operand is addressed with that operand's own offset (lhs_data_ptr[lhs_ptr_idx + i])
+    for r in rows:
+        if "fn" not in r or "/eval/simd/evaluator/" not in r["file"]:
+            continue
+        seen_ = set()
+        for f in r["facts"]:
+            for txt in (f.get("a", ""), str(f.get("b", ""))):
+                for m in re.finditer(r"%(\w+?)_data_ptr\[\(?%(\w+?)_(ptr_idx|offset)\b", txt):
+                    key = (m.group(0), f.get("line"))
+                    if key in seen_:
+                        continue
+                    seen_.add(key); n += 1
+                    if m.group(1) != m.group(2):
+                        findings.append(finding("R-SIMDPAD.side", prop, r, txt[:160], "%s_data_ptr is addressed with the offset of '%s' (operand sides mixed)" % (m.group(1), m.group(2)), f.get("line")))
     return findings, n, samples
 
 
